@@ -107,9 +107,28 @@ func cmdEnum(args []string) {
 		}
 		c := store.SetCollection("x", cmp)
 		perm := rng.Perm(n)
-		for _, p := range perm {
+		// every other variant: extra keys in between (key i followed by one more
+		// byte sorts right after key i), deleted again before anything is
+		// enumerated: the aggregates the enumerations rely on have been through
+		// deletes with items on both sides
+		extras := [][]byte{}
+		withDeletes := (idx/3)%2 == 1
+		for j, p := range perm {
 			if err := c.SetItem(&gkvlite.Item{Key: key(p + 1), Val: []byte{byte(p)}, Priority: rng.Int31()}); err != nil {
 				fatalf("SetItem: %v", err)
+			}
+			if withDeletes && j%2 == 0 && len(extras) < 60 {
+				ek := append(key(p+1), 1)
+				if err := c.SetItem(&gkvlite.Item{Key: ek, Val: []byte{0xee}, Priority: rng.Int31()}); err != nil {
+					fatalf("SetItem: %v", err)
+				}
+				extras = append(extras, ek)
+			}
+		}
+		rng.Shuffle(len(extras), func(a, b int) { extras[a], extras[b] = extras[b], extras[a] })
+		for _, ek := range extras {
+			if ok, err := c.Delete(ek); err != nil || !ok {
+				fatalf("Delete of an extra key: %v %v", ok, err)
 			}
 		}
 		if mode != "mem" {
